@@ -42,7 +42,10 @@ Qed.
 (* the resolver's step before the end-of-walk test: (state, whether maybe_finish follows) *)
 Definition rstep_in (s : st) : st * bool :=
   match rpcf s with
-  | RXWait => (set_rpc s RClaim, false)
+  | RXWait => (set_rpc s (match mode s with MCoro => RG1 | _ => RClaim end), false)
+  | RG1 => (set_rpc s RG2, false)
+  | RG2 => (set_rpc s RG3, false)
+  | RG3 => (let s1 := touch s in set_rpc (set_payload s1 (payload_of (rk s1)) (has_payload (rk s1))) RResolve, false)
   | RClaim => (let s1 := touch s in set_rpc (set_payload s1 (payload_of (rk s1)) (has_payload (rk s1))) RResolve, false)
   | RResolve =>
       (let s1 := touch s in
@@ -69,7 +72,7 @@ Lemma inv_rstep_in s : Inv s -> enabled s 1 = true ->
 Proof.
   intros I E. cbn [enabled] in E. unfold rstep_in. destruct (rpcf s) eqn:RP; try discriminate; cbn [fst snd].
   - (* RXWait *)
-    split; [|discriminate]. open_inv I. pre; mk_inv; go.
+    split; [|discriminate]. open_inv I. destruct (mode s) eqn:M; pre; mk_inv; go.
   - (* RClaim *)
     destruct (alive_pending s (proj1 I)) as (A & B). { pose proof (rs_ok s (proj1 I)) as Q. rewrite RP in Q. tauto. }
     rewrite touch_alive by exact A. split; [|discriminate]. open_inv I. specialize (Irc A).
@@ -127,6 +130,14 @@ Proof.
     2: { intros _. simp_st. reflexivity. }
     open_inv I. specialize (Irc A).
     use_dropped (set_selfref s false) B; pre; mk_inv; go.
+  - (* RG1 *)
+    split; [|discriminate]. open_inv I. pre; mk_inv; go.
+  - (* RG2 *)
+    split; [|discriminate]. open_inv I. pre; mk_inv; go.
+  - (* RG3 *)
+    destruct (alive_pending s (proj1 I)) as (A & B). { pose proof (rs_ok s (proj1 I)) as Q. rewrite RP in Q. tauto. }
+    rewrite touch_alive by exact A. split; [|discriminate]. open_inv I. specialize (Irc A).
+    pre; mk_inv; go.
 Qed.
 
 Lemma inv_rstep s : Inv s -> enabled s 1 = true -> Inv (fst (rstep s)).
